@@ -31,7 +31,7 @@ def verify_first(ctx):
     if len(vs) != 1:
         return
     v = vs[0]
-    names = {x['name']: x['pl']['l'] for x in rb.vars if x['arg'] is not None}
+    names = {'msk': lib.param_by_type(rb, r'core::MasterSecretKey$'), 'usk': lib.param_by_type(rb, r'core::UserSecretKey$')}
     ok = any(r[0] == 'param' and r[1] == names.get('msk') and not r[2] for r in root_descr(rb, v.args[0])) and \
         any(r[0] == 'param' and r[1] == names.get('usk') and not r[2] for r in root_descr(rb, v.args[1]))
     ctx.check(ok, rb.key, 'verify(msk, usk)', 'verify is not applied to the caller\'s master key and user key', 'verify(msk, usk)', v.where())
